@@ -112,6 +112,7 @@ type rt struct {
 	srcInc     int
 	startedInc int
 	srcNil     bool
+	emitted    int64          // lockstep: events the source was told to emit (it blocks until the executor takes each)
 	stall      map[int64]bool // free mode: nodes whose first call blocks until released
 	slow       map[int64]bool // free mode: slow consumers (a short sleep per call)
 	failPct    uint64         // free mode: percentage of calls that fail (default 16)
@@ -364,6 +365,10 @@ func (n *syncNode) Process(ev *firebolt.Event) (*firebolt.Event, error) {
 	n.r.log(sx.T(sx.L(6), sx.L(n.nid), it.tree(), o.tree()))
 	switch o.kind {
 	case 1:
+		if o.err%2 == 0 {
+			// a node may hand back an event together with its error: the error decides (the event is failed)
+			return ev.WithPayload(int64(-7)), n.mkErr(o.err, ev)
+		}
 		return nil, n.mkErr(o.err, ev)
 	default:
 		if len(o.ids) == 0 {
@@ -384,6 +389,10 @@ func (n *fanoutNode) Process(ev *firebolt.Event) ([]firebolt.Event, error) {
 	n.removeGate(it)
 	n.r.log(sx.T(sx.L(6), sx.L(n.nid), it.tree(), o.tree()))
 	if o.kind == 1 {
+		if o.err%2 == 0 {
+			// partial results together with the error: the error decides
+			return []firebolt.Event{*ev.WithPayload(int64(-7)), *ev.WithPayload(int64(-8))}, n.mkErr(o.err, ev)
+		}
 		return nil, n.mkErr(o.err, ev)
 	}
 	res := []firebolt.Event{}
@@ -528,6 +537,9 @@ func (s *hsrc) Start() error {
 			switch c.kind {
 			case 1:
 				s.r.log(sx.T(sx.L(4), sx.L(c.id)))
+				s.r.mu.Lock()
+				s.r.emitted++
+				s.r.mu.Unlock()
 				s.ch <- firebolt.Event{Payload: c.id, Created: time.Now()}
 				close(c.ack)
 			case 4:
